@@ -311,6 +311,9 @@ example : IcyVerif.RectCost.rqcraCount [1, 1, 0, 0, 2147483599, 80] 80 25 = 0 :=
 example : IcyVerif.RectCost.rectCount [2147483599, 0, 2147483599, 2147483599] 0 30 80 25 = 80 := by decide
 example : IcyVerif.RectCost.rectCount [0, 0, 2147483599, 2147483599] 0 30 80 25 = 2400 := by decide
 example : IcyVerif.RectCost.paramOf ("99999999999".toList.map Char.toNat) = 2147483599 := by decide +kernel
-example : IcyVerif.FontLoad.fontFromBytes #[0x36, 0x04, 0, 0, 1, 2, 3] = .ok ⟨8, 0, 256, 0, 0, 256⟩ := by decide
+/-- (a PSF1 header with character size 0 is rejected since the C02 repair of `BitFont::from_bytes`; the glyph loop itself
+    still returns at once for height 0: `glyphsFrom`) -/
+example : IcyVerif.FontLoad.fontFromBytes #[0x36, 0x04, 0, 0, 1, 2, 3] = .err := by decide
+example : IcyVerif.FontLoad.glyphsFrom 0 #[0x36, 0x04, 0, 0, 1, 2, 3] 4 = .ok 0 := by decide
 
 end IcyVerif.C03
